@@ -26,8 +26,8 @@ pub fn param_names(p: &Program) -> Vec<String> {
         (0..n).map(|i| format!("T{i}")).collect()
     }
 }
-pub fn assoc_self_names(n: usize) -> Vec<String> {
-    (0..n).map(|i| format!("Self::A{i}")).collect()
+pub fn assoc_self_names(i: &Interface) -> Vec<String> {
+    (0..i.assoc.len()).map(|k| format!("Self::{}", i.assoc_name(k))).collect()
 }
 fn conc_names(tys: &[Ty]) -> Vec<String> {
     tys.iter().map(|t| t.rust(&[], &[])).collect()
@@ -223,7 +223,7 @@ pub fn concrete_contract(p: &Program) -> String {
 pub fn render_interface_item(p: &Program, i: &Interface) -> String {
     let mut s = String::new();
     let (ic, iq) = iface_cq(p, i);
-    let assocs = assoc_self_names(i.assoc.len());
+    let assocs = assoc_self_names(i);
     if i.style == CustomStyle::Fixed {
         writeln!(s, "#[sv::custom(msg={ic}, query={iq})]").unwrap();
     }
@@ -238,7 +238,7 @@ pub fn render_interface_item(p: &Program, i: &Interface) -> String {
         (ic, iq)
     };
     for k in 0..i.assoc.len() {
-        writeln!(s, "    type A{k}: Gen;").unwrap();
+        writeln!(s, "    type {}: Gen;", i.assoc_name(k)).unwrap();
     }
     for m in &i.methods {
         let Role::Handler(kind) = m.role else { continue };
@@ -455,7 +455,7 @@ pub fn render_source(p: &Program, o: &RenderOpts) -> String {
             writeln!(s, "    type ExecC = {ic};\n    type QueryC = {iq};").unwrap();
         }
         for (k, t) in conc.iter().enumerate() {
-            writeln!(s, "    type A{k} = {t};").unwrap();
+            writeln!(s, "    type {} = {t};", i.assoc_name(k)).unwrap();
         }
         for m in &i.methods {
             let Role::Handler(kind) = m.role else { continue };
@@ -798,7 +798,7 @@ fn dyn_iface(p: &Program, i: &Interface) -> String {
         binds.push(format!("QueryC = {iq}"));
     }
     for (k, t) in conc_names(&i.assoc).iter().enumerate() {
-        binds.push(format!("A{k} = {t}"));
+        binds.push(format!("{} = {t}", i.assoc_name(k)));
     }
     format!("dyn {}::{}<{}>", i.module, i.trait_name, binds.join(", "))
 }
